@@ -143,7 +143,7 @@ func gwProjects(c *core.Ctx, n, years int, salt int64) []*gen.Project {
 			// deeper than 30 dm): the top layer's threshold has to follow the field capacity of the day
 			p.Soil.Horizons[0].Texture = []string{"SM", "SMG"}[r.Intn(2)]
 			p.Soil.Horizons[0].BDClass = 4 + r.Intn(2)
-			p.Soil.Horizons[0].Corg100 = 20 + r.Intn(90)
+			p.Soil.Horizons[0].Corg100 = 20 + r.Intn(36) // no humus correction
 			p.Soil.Horizons[0].StonePct = 0
 			p.GWSeries = nil
 			d := b - 30
@@ -153,6 +153,18 @@ func gwProjects(c *core.Ctx, n, years int, salt int64) []*gen.Project {
 				d += 20 + r.Intn(70)
 			}
 			p.Arms = append(p.Arms, "table route: dense sand, table through all groundwater classes")
+		}
+		if !explicit && from == "polygonfile" && i%10 == 4 {
+			// texture-table route, humous sands (the pore volume of the table gets a humus surcharge) under a table that
+			// moves every day inside the profile: the parameters are re-derived from the tables day after day
+			for k := range p.Soil.Horizons {
+				p.Soil.Horizons[k].Texture = []string{"SS", "SM", "SF", "SL2", "SU2", "SG"}[r.Intn(6)]
+				p.Soil.Horizons[k].Corg100 = 120 + r.Intn(300)
+				p.Soil.Horizons[k].StonePct = 0
+			}
+			p.GWHigh = 1 + r.Intn(4)
+			p.GWLow = p.GWHigh + 6 + r.Intn(10)
+			p.Arms = append(p.Arms, "table route: humous sands, table moving inside the profile")
 		}
 		ps = append(ps, p)
 	}
